@@ -109,7 +109,9 @@ pub struct Case {
     /// 0: foreign address; 1: + the wallet change address; 2: + a foreign xpub and the node's own xpub
     pub allow: u8,
     /// 0 check_onchain_tx, 1 handle_proposed_onchain with a recording approver that declines,
-    /// 2 the same with an approver that approves every unknown destination it is asked about
+    /// 2 the same with an approver that approves every unknown destination it is asked about,
+    /// 3 the protocol message SignWithdrawal through the root handler (declining approver): passing
+    /// means that the handler went on to sign
     pub entry: u8,
     pub inputs: Vec<(u64, bool)>,
     pub outputs: Vec<Out>,
@@ -382,10 +384,36 @@ fn run_case(case: &Case) -> Res {
         }
         inputs[0].0 = (want - others) as u64;
     }
+    // through the protocol message, an input counts as segwit only if the previous transaction
+    // travels with the PSBT and its output is a witness program: those inputs spend real
+    // previous transactions; an input flagged non-segwit comes with a claimed output only
+    let prev_txs: Vec<Option<Transaction>> = inputs
+        .iter()
+        .enumerate()
+        .map(|(i, (v, sw))| {
+            if case.entry == 3 && *sw {
+                let mut outs: Vec<TxOut> = (0..i).map(|j| TxOut { value: Amount::from_sat(1_000 + j as u64), script_pubkey: foreign_script(8) }).collect();
+                outs.push(TxOut { value: Amount::from_sat(*v), script_pubkey: node.get_native_address(&wallet_path(40 + i as u32)).unwrap().script_pubkey() });
+                Some(Transaction {
+                    version: Version(2),
+                    lock_time: LockTime::ZERO,
+                    input: vec![TxIn { previous_output: OutPoint { txid: Txid::from_slice(&[0x70 + i as u8; 32]).unwrap(), vout: 0 }, script_sig: ScriptBuf::new(), sequence: Sequence::ZERO, witness: Witness::new() }],
+                    output: outs,
+                })
+            } else {
+                None
+            }
+        })
+        .collect();
     let txins: Vec<TxIn> = inputs
         .iter()
         .enumerate()
-        .map(|(i, _)| TxIn { previous_output: OutPoint { txid: Txid::from_slice(&[0x90 + i as u8; 32]).unwrap(), vout: i as u32 }, script_sig: ScriptBuf::new(), sequence: Sequence::ZERO, witness: Witness::new() })
+        .map(|(i, _)| TxIn {
+            previous_output: OutPoint { txid: prev_txs[i].as_ref().map(|t| t.compute_txid()).unwrap_or_else(|| Txid::from_slice(&[0x90 + i as u8; 32]).unwrap()), vout: i as u32 },
+            script_sig: ScriptBuf::new(),
+            sequence: Sequence::ZERO,
+            witness: Witness::new(),
+        })
         .collect();
     let tx = Transaction { version: Version(version), lock_time: LockTime::ZERO, input: txins, output: txouts };
     let txid = tx.compute_txid();
@@ -544,7 +572,87 @@ fn run_case(case: &Case) -> Res {
         let ucks: Vec<Option<(lightning_signer::bitcoin::secp256k1::SecretKey, Vec<Vec<u8>>)>> = vec![None; inputs.len()];
         let n2 = node.clone();
         let before = if crate::monitors::grid_monitors() { Some(w.snapshot()) } else { None };
-        if case.entry == 0 {
+        if case.entry == 3 {
+            // SignWithdrawal: PSBT with the previous transactions (or the claimed outputs), the
+            // wallet paths on the outputs and the node's own inputs listed as UTXOs; encoded and
+            // decoded through the wire codec, as the segwit flags only exist after decoding
+            use lightning_signer::bitcoin::bip32::Fingerprint;
+            use lightning_signer::bitcoin::psbt::Psbt;
+            use vls_protocol::msgs::{self, Message, SerBolt};
+            use vls_protocol::psbt::StreamedPSBT;
+            use vls_protocol::serde_bolt::{Array, Octets, WithSize};
+            let _ = (n2, sw, ucks);
+            let mut psbt = Psbt::from_unsigned_tx(tx2.clone()).expect("psbt");
+            for (i, inp) in psbt.inputs.iter_mut().enumerate() {
+                match &prev_txs[i] {
+                    Some(t) => inp.non_witness_utxo = Some(t.clone()),
+                    None => inp.witness_utxo = Some(po[i].clone()),
+                }
+            }
+            let dummy = lightning_signer::bitcoin::secp256k1::PublicKey::from_secret_key(&secp(), &sk(98));
+            for (j, o) in psbt.outputs.iter_mut().enumerate() {
+                if !op[j].is_empty() {
+                    o.bip32_derivation.insert(dummy, (Fingerprint::default(), op[j].clone()));
+                }
+            }
+            let utxos: Vec<vls_protocol::model::Utxo> = tx2
+                .input
+                .iter()
+                .enumerate()
+                .map(|(i, ti)| vls_protocol::model::Utxo {
+                    txid: ti.previous_output.txid,
+                    outnum: ti.previous_output.vout,
+                    amount: po[i].value.to_sat(),
+                    keyindex: 40 + i as u32,
+                    is_p2sh: false,
+                    script: Octets(po[i].script_pubkey.to_bytes()),
+                    close_info: None,
+                    is_in_coinbase: false,
+                })
+                .collect();
+            let bytes = msgs::SignWithdrawal { utxos: Array(utxos), psbt: WithSize(StreamedPSBT::new(psbt)) }.as_vec();
+            let o = match msgs::from_vec(bytes) {
+                Ok(m @ Message::SignWithdrawal(_)) => w.root_msg(m),
+                Ok(_) => Outcome::Err("decoded-as-another-message".into()),
+                Err(e) => Outcome::Err(format!("does-not-decode:{:?}", e).chars().take(40).collect()),
+            };
+            if before.is_some() {
+                let as_refusal: Outcome<()> = match &o {
+                    Outcome::Ok(_) => Outcome::Ok(()),
+                    Outcome::Err(e) => Outcome::Err(e.clone()),
+                    Outcome::Panic(p) => Outcome::Panic(p.clone()),
+                };
+                crate::monitors::around(&w, &before, &as_refusal, "SignWithdrawal", &mut r.mon);
+            }
+            match o {
+                Outcome::Ok(Message::SignWithdrawalReply(_)) => {
+                    r.accepted = true;
+                    r.class = format!("{}accepted", if round == 1 { "2nd-" } else if round > 1 { "nth-" } else { "" });
+                    if let Err(wy) = &expect {
+                        r.ref_why = wy.clone();
+                        r.vio = Some((format!("C08:SignWithdrawal:passed-although:{}", wy), format!("{:?} (request {}): inputs {} beneficial {} weight<= {} max rate {}: {}", case, round + 1, sum_in, beneficial, w_up, p.max_feerate_per_kw, wy)));
+                        return r;
+                    }
+                    prior += sum_in - beneficial;
+                }
+                Outcome::Ok(_) => {
+                    r.refused = true;
+                    r.class = "refused:reply-of-another-type".into();
+                }
+                Outcome::Err(e) => {
+                    r.refused = true;
+                    r.class = format!("refused:{}", e.split('(').next().unwrap_or(""));
+                    if let Err(wy) = &expect {
+                        r.ref_why = wy.clone();
+                    }
+                }
+                Outcome::Panic(pn) => {
+                    r.panic = true;
+                    r.class = format!("panic:{}", pn.chars().take(50).collect::<String>());
+                    return r;
+                }
+            }
+        } else if case.entry == 0 {
             let o = call(move || match n2.check_onchain_tx(&tx2, &sw, &po, &ucks, &op) {
                 Ok(()) => Ok(None),
                 Err(ve) => match ve.kind {
@@ -675,7 +783,11 @@ fn bases() -> Vec<Case> {
             if pol == 2 && allow != 0 {
                 continue;
             }
-            for entry in 0..3u8 {
+            for entry in 0..4u8 {
+                // the protocol message with the first allowlist only
+                if entry == 3 && allow != 0 {
+                    continue;
+                }
                 // a wallet spend with change and an allowlisted destination
                 v.push(Case { pol, allow, entry, inputs: vec![(1_000_600, true)], outputs: vec![Out { k: OutK::Wallet(0), value: 600_000 }, Out { k: OutK::Allowlisted, value: 400_000 }], devs: vec![], onchain: false });
                 // single-channel funding with change
@@ -854,6 +966,7 @@ pub fn main(tier: Tier) -> i32 {
     }
     let budget = tier.pick(45.0, 1500.0);
     let (mut evals, mut calls, mut acc, mut refu, mut unk, mut panics, mut skipped, mut base_acc) = (0u64, 0u64, 0u64, 0u64, 0u64, 0u64, 0u64, 0u64);
+    let (mut wire_acc, mut wire_base_acc) = (0u64, 0u64);
     let mut classes: BTreeSet<String> = BTreeSet::new();
     let mut skip_classes: BTreeSet<String> = BTreeSet::new();
     let mut complete = true;
@@ -879,6 +992,12 @@ pub fn main(tier: Tier) -> i32 {
                 if c.devs.is_empty() {
                     base_acc += 1;
                 }
+                if c.entry == 3 {
+                    wire_acc += 1;
+                    if c.devs.is_empty() {
+                        wire_base_acc += 1;
+                    }
+                }
                 if samples.len() < 3 && !c.devs.is_empty() {
                     samples.push(json!({"accepted": c}));
                 }
@@ -901,6 +1020,9 @@ pub fn main(tier: Tier) -> i32 {
     if base_acc == 0 {
         run.vacuous("no base transaction passed the signer's check");
     }
+    if complete && wire_base_acc < 3 {
+        run.vacuous(&format!("only {} base transaction(s) were signed through the SignWithdrawal message", wire_base_acc));
+    }
     run.assume(&format!("arithmetic profile: {}", profile));
     run.assume("reference: every output is classified independently (wallet-derivable at the presented path in native / wrapped / taproot form, allowlisted script, address derived from an allowlisted xpub at the presented path, funding output of a channel the node funds); passing requires version 2, no unknown / mismatching output, every funding rule, all inputs segwit when a channel is funded, (inputs - beneficial) x 1000 <= max fee rate x an upper bound of the signed weight, and cumulative non-beneficial value within the hourly fee velocity limit; a report of unknown destinations must list exactly the outputs the reference classifies as unknown");
     let cov = json!({
@@ -912,6 +1034,8 @@ pub fn main(tier: Tier) -> i32 {
         "exhaustive": complete,
         "bases": bs.len(),
         "bases_accepted": base_acc,
+        "bases_signed_through_SignWithdrawal": wire_base_acc,
+        "cases_signed_through_SignWithdrawal": wire_acc,
         "bases_refused": bs.len() as u64 - base_acc,
         "cases_generated": cases.len(),
         "cases_run": done,
